@@ -15,7 +15,7 @@ SPEC = {
         ('K-first(cut-offs)', 'first', '^(cutoff:|stop:|fields:dist_obs)'),
         ("_create_start_nodes(max_dist_init goes to the spatial query; distance, projection and relative position go unchanged into the start state)", 'start_nodes', r'^start:(spatial|one-first)')],
     'bounded': [
-        ('cutoffs-and-nearest-points', suites.case_C05, 1500, 25000, RULE + '; ' + 'non-trivial = some candidate was cut off or the path has >= 2 states', '')],
+        ('cutoffs-and-nearest-points', suites.case_C05, 1500, 200000, RULE + '; ' + 'non-trivial = some candidate was cut off or the path has >= 2 states', '')],
 }
 
 
